@@ -887,7 +887,7 @@ class SVDMimo(Blast):
             The receive_filter that can be applied to the input data.
         """
         Nt = channel.shape[1]
-        U, S, _ = np.linalg.svd(channel)
+        U, S, _ = np.linalg.svd(channel, full_matrices=False)
         G_H = np.diag(1. / S).dot(U.conj().T) * math.sqrt(Nt)
         return G_H
 
